@@ -275,7 +275,8 @@ func mintTokens(ctx *action.Context, tracker *trackerlib.Tracker, oltTx ReportFi
 		return gov.ErrGetEthOptions
 	}
 	oEthCoin := curr.NewCoinFromAmount(*balance.NewAmountFromBigInt(lockAmount.Amount))
-	err = ctx.Balances.AddToAddress(oltTx.Locker, oEthCoin)
+	// mint to the account that submitted the lock, not to the address a witness report names
+	err = ctx.Balances.AddToAddress(tracker.ProcessOwner, oEthCoin)
 	if err != nil {
 		ctx.Logger.Error(err)
 		return errors.New("Unable to mint")
@@ -361,7 +362,8 @@ func mintERC20tokens(ctx *action.Context, tracker *trackerlib.Tracker, oltTx Rep
 	}
 
 	otokenCoin := curr.NewCoinFromAmount(*balance.NewAmountFromBigInt(erc20Params.TokenAmount))
-	err = ctx.Balances.AddToAddress(oltTx.Locker, otokenCoin)
+	// mint to the account that submitted the lock, not to the address a witness report names
+	err = ctx.Balances.AddToAddress(tracker.ProcessOwner, otokenCoin)
 	if err != nil {
 		ctx.Logger.Error(err)
 		return errors.Errorf("Unable to mint token for : %s", token.TokName)
